@@ -27,4 +27,49 @@ pub mod ring {
         }
         }
     }
+    pub mod hkdf {
+        use vstd::prelude::*;
+        use crate::cryptospec::*;
+        use crate::pspec::views;
+        verus!{
+        #[derive(Clone, Copy)] pub struct Algorithm;
+        pub const HKDF_SHA384: Algorithm = Algorithm;
+        pub uninterp spec fn keytype_len<L: ?Sized>(l: &L) -> usize;
+        pub trait KeyType { fn len(&self) -> (r: usize) ensures r == keytype_len(self); }
+        #[verifier::external_body] pub struct Salt { _x: u8 }
+        #[verifier::external_body] pub struct Prk { _x: u8 }
+        #[verifier::external_body]
+        #[verifier::reject_recursive_types(L)]
+        pub struct Okm<'a, L: KeyType> { _l: core::marker::PhantomData<&'a L> }
+        impl Salt {
+            pub uninterp spec fn salt(&self) -> Seq<u8>;
+            #[verifier::external_body]
+            pub fn new(algorithm: Algorithm, value: &[u8]) -> (r: Salt) ensures r.salt() == value@ { unimplemented!() }
+            #[verifier::external_body]
+            pub fn extract(&self, secret: &[u8]) -> (r: Prk) ensures r.salt() == self.salt(), r.ikm() == secret@ { unimplemented!() }
+        }
+        impl Prk {
+            pub uninterp spec fn salt(&self) -> Seq<u8>;
+            pub uninterp spec fn ikm(&self) -> Seq<u8>;
+            #[verifier::external_body]
+            pub fn expand<'a, L: KeyType>(&'a self, info: &'a [&'a [u8]], len: L) -> (r: Result<Okm<'a, L>, super::error::Unspecified>)
+                ensures keytype_len(&len) <= 255 * 48 <==> r is Ok,
+                        r is Ok ==> r->Ok_0.len_obj() == len
+                                 && r->Ok_0.out() == hkdf_sha384(self.salt(), self.ikm(), concat_all(views(info@)), keytype_len(&len) as nat)
+            { unimplemented!() }
+        }
+        impl<'a, L: KeyType> Okm<'a, L> {
+            pub uninterp spec fn len_obj(&self) -> L;
+            pub uninterp spec fn out(&self) -> Seq<u8>;
+            #[verifier::external_body]
+            pub fn len(&self) -> (r: &L) ensures *r == self.len_obj() { unimplemented!() }
+            #[verifier::external_body]
+            pub fn fill(self, out: &mut [u8]) -> (r: Result<(), super::error::Unspecified>)
+                ensures final(out)@.len() == old(out)@.len(),
+                        (old(out)@.len() == keytype_len(&self.len_obj())) <==> r is Ok,
+                        r is Ok ==> final(out)@ == self.out()
+            { unimplemented!() }
+        }
+        }
+    }
 }
